@@ -383,6 +383,24 @@ def r7_plumbing(chk, rule='C01.R7'):
         chk.ob(rule, 'genIndex/reads status.%s' % a, ok, where(o.mod, fn), '')
 
 
+def r7b_summary_not_aliased(chk):
+    """the OID summary handed back per module must be that module's own object (same rule as C12.R3)"""
+    from vt.runner import Check
+    from rules.C12 import r2_generator_reset
+    chk.doc('C01.R7b', 'the collections handed to MibInfo (oids, compliance) are re-created per module, not cleared in '
+                       'place: otherwise every module of one compile() call reports the last module\'s OIDs')
+    tmp = Check(chk.prop, chk.tier, chk.model, chk.repo)
+    r2_generator_reset(tmp)
+    for o in tmp.obligations:
+        if o.rule == 'C12.R3' and ('_oids' in o.key or '_complianceOids' in o.key) and 'IntermediateCodeGen' in o.key:
+            chk.ob('C01.R7b', o.key, o.ok, o.where, o.detail)
+        if o.rule == 'C12.R2' and o.key in ('IntermediateCodeGen/self._oids', 'IntermediateCodeGen/self._complianceOids',
+                                            'IntermediateCodeGen/self._enterpriseOid',
+                                            'IntermediateCodeGen/self._moduleIdentityOid'):
+            chk.ob('C01.R7b', o.key + '/reset', o.ok, o.where, o.detail)
+    chk.floor('C01.R7b', 4, 'summary attributes')
+
+
 def r8_normalisation(chk):
     from rules.C06 import r1_normalisation
     r1_normalisation(chk, rule='C01.R8', only=('genOid', 'genNumericOid', 'genSimpleSyntax', 'allParentsExists'))
@@ -401,4 +419,4 @@ def r6_translate(chk):
 
 
 RULES = [r1_subidentifier_shapes, r2_genoid, r3_numeric, r4_trap, r5_fixpoint, r6_translate, r7_plumbing,
-         r8_normalisation]
+         r7b_summary_not_aliased, r8_normalisation]
